@@ -1,5 +1,5 @@
 #!/bin/sh
-# tools/sweep.sh <first seed> <last seed> [tier]  -- runs every check for a range of VERIF_SEED values
+# tools/sweep.sh <first seed> <last seed> [tier]  (PROPS="C15 C20" restricts the list) -- runs every check for a range of VERIF_SEED values
 # against a private copy of the simulator (and of the repository when $VP_RUN_REPO is set), printing
 # only what needs attention.  Not a registered check: a false-alarm hunt.
 set -u
@@ -14,7 +14,7 @@ cp "$HERE/known_findings.txt" "$WORK/"
 cd "$WORK/sim" && CARGO_NET_OFFLINE=true cargo build --release --offline >/dev/null 2>&1 || { echo "build failed"; exit 2; }
 TIER="${3:-quick}"
 for seed in $(seq "$1" "$2"); do
-  for p in C01 C02 C03 C04 C05 C06 C08 C09 C10 C11 C15 C16 C20; do
+  for p in ${PROPS:-C01 C02 C03 C04 C05 C06 C08 C09 C10 C11 C15 C16 C20}; do
     out=$(VERIF_ROOT="$WORK" VERIF_SEED=$seed ./target/release/msisim check $p $TIER 2>&1)
     rc=$?
     if [ $rc -ne 0 ]; then
